@@ -1,1 +1,1681 @@
-//! C01: not implemented yet.
+//! C01 — Clock steps never exceed the configured panic thresholds.
+//!
+//! This file also hosts the explicit-state engine shared with C02 and C06 (`pub(super)`
+//! items): a `World` made of the REAL `KalmanClockController<RecClock>`, the REAL
+//! two-way / one-way Kalman source controllers, a FIFO that plays the role of the
+//! `TimeSyncControllerWrapper` channel, the single-shot timer of `run`, and a recording
+//! mock `NtpClock`. One alphabet event = one source-side action (measurement, usability
+//! change, drop) and/or one controller-loop iteration (message delivery, timer expiry);
+//! steering messages returned in `InternalStateUpdate::source_message` are fed back to all
+//! live source controllers (one-way first, then two-way) exactly as `run` does.
+//!
+//! Exploration is breadth-first over event histories with canonical-key deduplication.
+//! The source filters hold `tokio::time::Instant`s of a paused clock that can only move
+//! forward, so a successor is not produced by cloning but by *replaying* the
+//! representative history of its parent plus one event on a fresh world (a few µs per
+//! event). The key is the exact bit pattern of all private state (probes) + channel +
+//! timer + mock clock + oracle model, so merging is sound. The only nondeterminism of the
+//! code under test, the iteration order of the `sources` HashMap (RandomState), is owned:
+//! a world is re-created until the observed order equals the one demanded by the
+//! configuration (axis `ord`), which makes replays bit-reproducible and lets both orders
+//! be explored.
+//!
+//! C01 oracle (from the statement, i128 arithmetic on NTP fixed-point units):
+//!   synced := false until the first controller update that reports `used_sources`;
+//!   every recorded `step_clock(d)`: if !synced, d must not lie outside the startup window,
+//!   else not outside the single-step window and acc += |d| must not exceed the accumulated
+//!   threshold. An update that ends in the `Threshold exceeded` panic (cfg(test) image of
+//!   `exit(SOFTWARE)`) is the daemon stopping: terminal, and it must not have stepped.
+use std::collections::{BTreeMap, HashSet, VecDeque};
+use std::hash::{Hash, Hasher};
+use std::sync::{Arc, Mutex};
+use std::time::Duration;
+
+use super::common::{self, Ctx};
+use crate::ClockId;
+use crate::algorithm::{
+    AlgorithmConfig, InternalMeasurement, InternalSourceController, InternalStateUpdate,
+    InternalTimeSyncController, KalmanClockController, KalmanControllerMessage,
+    KalmanSourceMessage, TwoWayKalmanSourceController,
+};
+use crate::clock::NtpClock;
+use crate::config::{SourceConfig, StepThreshold, SynchronizationConfig};
+use crate::packet::NtpLeapIndicator;
+use crate::system::TimeSnapshot;
+use crate::time_types::{NtpDuration, NtpTimestamp};
+
+pub(super) type OneWay =
+    <KalmanClockController<RecClock> as InternalTimeSyncController>::OneWaySourceController;
+
+/// one second in NTP fixed-point units
+pub(super) const S: i64 = 1 << 32;
+pub(super) const MS: i64 = S / 1000;
+
+pub(super) fn du(d: NtpDuration) -> i64 {
+    u64::from_be_bytes((NtpTimestamp::from_fixed_int(0) + d).to_bits()) as i64
+}
+pub(super) fn tu(t: NtpTimestamp) -> u64 {
+    u64::from_be_bytes(t.to_bits())
+}
+pub(super) fn secs(units: i64) -> f64 {
+    units as f64 / 4294967296.0
+}
+
+// ------------------------------------------------------------------------------------
+// recording mock clock
+// ------------------------------------------------------------------------------------
+
+#[derive(Clone, Debug, PartialEq)]
+pub(super) enum Call {
+    Step(i64),
+    SetFreq(f64),
+    ErrEst(i64, i64),
+    Status(u8),
+    Disable,
+}
+
+#[derive(Debug)]
+struct ClockInner {
+    now: u64,
+    freq: f64,
+    log: Vec<Call>,
+}
+
+#[derive(Clone, Debug)]
+pub(super) struct RecClock(Arc<Mutex<ClockInner>>);
+
+impl RecClock {
+    fn new(freq: f64) -> Self {
+        // local time starts at 2^31 s (middle of the era) so that steps of +-2^30 s do not wrap
+        RecClock(Arc::new(Mutex::new(ClockInner {
+            now: 1u64 << 63,
+            freq,
+            log: Vec::new(),
+        })))
+    }
+    fn take_log(&self) -> Vec<Call> {
+        std::mem::take(&mut self.0.lock().unwrap().log)
+    }
+    fn advance_local(&self, d: i64) {
+        let mut c = self.0.lock().unwrap();
+        c.now = c.now.wrapping_add(d as u64);
+    }
+    pub(super) fn local_now(&self) -> u64 {
+        self.0.lock().unwrap().now
+    }
+    fn freq(&self) -> f64 {
+        self.0.lock().unwrap().freq
+    }
+}
+
+pub(super) fn leap_code(l: NtpLeapIndicator) -> u8 {
+    match l {
+        NtpLeapIndicator::NoWarning => 0,
+        NtpLeapIndicator::Leap61 => 1,
+        NtpLeapIndicator::Leap59 => 2,
+        NtpLeapIndicator::Unknown => 3,
+        NtpLeapIndicator::Unsynchronized => 4,
+    }
+}
+fn leap_of(c: u8) -> NtpLeapIndicator {
+    match c {
+        0 => NtpLeapIndicator::NoWarning,
+        1 => NtpLeapIndicator::Leap61,
+        2 => NtpLeapIndicator::Leap59,
+        3 => NtpLeapIndicator::Unknown,
+        _ => NtpLeapIndicator::Unsynchronized,
+    }
+}
+
+impl NtpClock for RecClock {
+    type Error = std::io::Error;
+    fn now(&self) -> Result<NtpTimestamp, Self::Error> {
+        Ok(NtpTimestamp::from_fixed_int(self.0.lock().unwrap().now))
+    }
+    fn set_frequency(&self, freq: f64) -> Result<NtpTimestamp, Self::Error> {
+        let mut c = self.0.lock().unwrap();
+        c.log.push(Call::SetFreq(freq));
+        c.freq = freq;
+        Ok(NtpTimestamp::from_fixed_int(c.now))
+    }
+    fn get_frequency(&self) -> Result<f64, Self::Error> {
+        Ok(self.0.lock().unwrap().freq)
+    }
+    fn step_clock(&self, offset: NtpDuration) -> Result<NtpTimestamp, Self::Error> {
+        let mut c = self.0.lock().unwrap();
+        let d = du(offset);
+        c.log.push(Call::Step(d));
+        c.now = c.now.wrapping_add(d as u64);
+        Ok(NtpTimestamp::from_fixed_int(c.now))
+    }
+    fn disable_ntp_algorithm(&self) -> Result<(), Self::Error> {
+        self.0.lock().unwrap().log.push(Call::Disable);
+        Ok(())
+    }
+    fn error_estimate_update(&self, est: NtpDuration, max: NtpDuration) -> Result<(), Self::Error> {
+        self.0.lock().unwrap().log.push(Call::ErrEst(du(est), du(max)));
+        Ok(())
+    }
+    fn status_update(&self, leap: NtpLeapIndicator) -> Result<(), Self::Error> {
+        self.0.lock().unwrap().log.push(Call::Status(leap_code(leap)));
+        Ok(())
+    }
+}
+
+// ------------------------------------------------------------------------------------
+// configuration
+// ------------------------------------------------------------------------------------
+
+#[derive(Clone, Debug, PartialEq)]
+pub(super) enum SrcKind {
+    Two,
+    One { noise: f64, accuracy: f64, period: Option<f64> },
+}
+
+#[derive(Clone, Debug, PartialEq)]
+pub(super) struct Cfg {
+    /// (forward, backward) in units; None = infinite
+    pub startup: (Option<i64>, Option<i64>),
+    pub single: (Option<i64>, Option<i64>),
+    pub acc: Option<i64>,
+    pub min_agree: usize,
+    /// demanded iteration order of the controller's source table: 0 ascending id, 1 descending
+    pub order: u8,
+    pub init_freq: f64,
+    pub step_threshold: f64,
+    pub max_steer: f64,
+    pub slew_max: f64,
+    pub slew_min_dur: f64,
+    pub max_src_unc: f64,
+    pub sources: Vec<SrcKind>,
+}
+
+impl Default for Cfg {
+    fn default() -> Self {
+        let a = AlgorithmConfig::default();
+        Cfg {
+            startup: (None, None),
+            single: (None, None),
+            acc: None,
+            min_agree: 1,
+            order: 0,
+            init_freq: 0.0,
+            step_threshold: a.step_threshold,
+            max_steer: a.maximum_frequency_steer,
+            slew_max: a.slew_maximum_frequency_offset,
+            slew_min_dur: a.slew_minimum_duration,
+            max_src_unc: a.maximum_source_uncertainty,
+            sources: vec![
+                SrcKind::Two,
+                SrcKind::Two,
+                SrcKind::One { noise: 1e-6, accuracy: 0.0, period: None },
+            ],
+        }
+    }
+}
+
+fn thr(t: (Option<i64>, Option<i64>)) -> StepThreshold {
+    StepThreshold {
+        forward: t.0.map(NtpDuration::from_fixed_int),
+        backward: t.1.map(NtpDuration::from_fixed_int),
+    }
+}
+
+fn fmt_opt(v: Option<i64>) -> String {
+    v.map_or("inf".to_string(), |x| x.to_string())
+}
+fn parse_opt(s: &str) -> Option<i64> {
+    if s == "inf" { None } else { s.parse().ok() }
+}
+
+impl Cfg {
+    pub(super) fn sync(&self) -> SynchronizationConfig {
+        SynchronizationConfig {
+            minimum_agreeing_sources: self.min_agree,
+            single_step_panic_threshold: thr(self.single),
+            startup_step_panic_threshold: thr(self.startup),
+            accumulated_step_panic_threshold: self.acc.map(NtpDuration::from_fixed_int),
+            ..SynchronizationConfig::default()
+        }
+    }
+    pub(super) fn algo(&self) -> AlgorithmConfig {
+        AlgorithmConfig {
+            step_threshold: self.step_threshold,
+            maximum_frequency_steer: self.max_steer,
+            slew_maximum_frequency_offset: self.slew_max,
+            slew_minimum_duration: self.slew_min_dur,
+            maximum_source_uncertainty: self.max_src_unc,
+            ..AlgorithmConfig::default()
+        }
+    }
+    pub(super) fn encode(&self) -> String {
+        let src: Vec<String> = self
+            .sources
+            .iter()
+            .map(|k| match k {
+                SrcKind::Two => "T".to_string(),
+                SrcKind::One { noise, accuracy, period } => format!(
+                    "O:{noise:?}:{accuracy:?}:{}",
+                    period.map_or("-".to_string(), |p| format!("{p:?}"))
+                ),
+            })
+            .collect();
+        format!(
+            "su={}/{};si={}/{};ac={};min={};ord={};f0={:?};st={:?};ms={:?};sm={:?};sd={:?};mu={:?};src={}",
+            fmt_opt(self.startup.0),
+            fmt_opt(self.startup.1),
+            fmt_opt(self.single.0),
+            fmt_opt(self.single.1),
+            fmt_opt(self.acc),
+            self.min_agree,
+            self.order,
+            self.init_freq,
+            self.step_threshold,
+            self.max_steer,
+            self.slew_max,
+            self.slew_min_dur,
+            self.max_src_unc,
+            src.join("+")
+        )
+    }
+    pub(super) fn decode(s: &str) -> Option<Cfg> {
+        let mut c = Cfg::default();
+        for kv in s.split(';') {
+            let (k, v) = kv.split_once('=')?;
+            let pair = |v: &str| -> Option<(Option<i64>, Option<i64>)> {
+                let (a, b) = v.split_once('/')?;
+                Some((parse_opt(a), parse_opt(b)))
+            };
+            match k {
+                "su" => c.startup = pair(v)?,
+                "si" => c.single = pair(v)?,
+                "ac" => c.acc = parse_opt(v),
+                "min" => c.min_agree = v.parse().ok()?,
+                "ord" => c.order = v.parse().ok()?,
+                "f0" => c.init_freq = v.parse().ok()?,
+                "st" => c.step_threshold = v.parse().ok()?,
+                "ms" => c.max_steer = v.parse().ok()?,
+                "sm" => c.slew_max = v.parse().ok()?,
+                "sd" => c.slew_min_dur = v.parse().ok()?,
+                "mu" => c.max_src_unc = v.parse().ok()?,
+                "src" => {
+                    c.sources = v
+                        .split('+')
+                        .map(|t| {
+                            if t == "T" {
+                                Some(SrcKind::Two)
+                            } else {
+                                let p: Vec<&str> = t.split(':').collect();
+                                if p.len() != 4 || p[0] != "O" {
+                                    return None;
+                                }
+                                Some(SrcKind::One {
+                                    noise: p[1].parse().ok()?,
+                                    accuracy: p[2].parse().ok()?,
+                                    period: if p[3] == "-" { None } else { Some(p[3].parse().ok()?) },
+                                })
+                            }
+                        })
+                        .collect::<Option<Vec<_>>>()?;
+                }
+                _ => return None,
+            }
+        }
+        Some(c)
+    }
+}
+
+// ------------------------------------------------------------------------------------
+// events
+// ------------------------------------------------------------------------------------
+
+#[derive(Clone, Debug, PartialEq, Eq, Hash)]
+pub(super) enum Ev {
+    /// `reps` measurements of source `src`; before each one the local clock advances by
+    /// `dt` units and the monotonic (tokio) clock by `mono_ns`. Repetition k uses offset
+    /// `off + wob*((k%3)-1)` and delay `delay + dwob*(k%2)` (saturating). `defer`: the
+    /// message stays queued in the channel instead of being processed at once.
+    Meas {
+        src: u8,
+        off: i64,
+        delay: i64,
+        dt: i64,
+        mono_ns: u64,
+        rdelay: i64,
+        rdisp: i64,
+        leap: u8,
+        reps: u8,
+        defer: bool,
+        wob: i64,
+        dwob: i64,
+    },
+    /// the controller loop processes the oldest queued message
+    Deliver,
+    /// the single-shot timer of `run` expires (time first advances to its deadline)
+    Tick,
+    Usable { src: u8, on: bool },
+    Remove { src: u8 },
+}
+
+impl Ev {
+    /// plain measurement helper: offset/delay in units, dt in whole units, same dt on both clocks
+    pub(super) fn meas(src: u8, off: i64, delay: i64, dt: i64) -> Ev {
+        Ev::Meas {
+            src,
+            off,
+            delay,
+            dt,
+            mono_ns: units_to_ns(dt),
+            rdelay: 0,
+            rdisp: 0,
+            leap: 0,
+            reps: 1,
+            defer: false,
+            wob: 0,
+            dwob: 0,
+        }
+    }
+    pub(super) fn burst(src: u8, off: i64, delay: i64, dt: i64, reps: u8, wob: i64, dwob: i64) -> Ev {
+        match Ev::meas(src, off, delay, dt) {
+            Ev::Meas { src, off, delay, dt, mono_ns, rdelay, rdisp, leap, defer, .. } => {
+                Ev::Meas { src, off, delay, dt, mono_ns, rdelay, rdisp, leap, reps, defer, wob, dwob }
+            }
+            e => e,
+        }
+    }
+    pub(super) fn deferred(self) -> Ev {
+        match self {
+            Ev::Meas { src, off, delay, dt, mono_ns, rdelay, rdisp, leap, reps, wob, dwob, .. } => {
+                Ev::Meas { src, off, delay, dt, mono_ns, rdelay, rdisp, leap, reps, defer: true, wob, dwob }
+            }
+            e => e,
+        }
+    }
+    pub(super) fn with_mono(self, ns: u64) -> Ev {
+        match self {
+            Ev::Meas { src, off, delay, dt, rdelay, rdisp, leap, reps, defer, wob, dwob, .. } => {
+                Ev::Meas { src, off, delay, dt, mono_ns: ns, rdelay, rdisp, leap, reps, defer, wob, dwob }
+            }
+            e => e,
+        }
+    }
+    pub(super) fn with_root(self, rd: i64, rdp: i64) -> Ev {
+        match self {
+            Ev::Meas { src, off, delay, dt, mono_ns, leap, reps, defer, wob, dwob, .. } => {
+                Ev::Meas { src, off, delay, dt, mono_ns, rdelay: rd, rdisp: rdp, leap, reps, defer, wob, dwob }
+            }
+            e => e,
+        }
+    }
+    pub(super) fn with_leap(self, l: u8) -> Ev {
+        match self {
+            Ev::Meas { src, off, delay, dt, mono_ns, rdelay, rdisp, reps, defer, wob, dwob, .. } => {
+                Ev::Meas { src, off, delay, dt, mono_ns, rdelay, rdisp, leap: l, reps, defer, wob, dwob }
+            }
+            e => e,
+        }
+    }
+    pub(super) fn encode(&self) -> String {
+        match self {
+            Ev::Meas { src, off, delay, dt, mono_ns, rdelay, rdisp, leap, reps, defer, wob, dwob } => format!(
+                "m{src}:{off}:{delay}:{dt}:{mono_ns}:{rdelay}:{rdisp}:{leap}:{reps}:{}:{wob}:{dwob}",
+                *defer as u8
+            ),
+            Ev::Deliver => "d".to_string(),
+            Ev::Tick => "t".to_string(),
+            Ev::Usable { src, on } => format!("u{src}:{}", *on as u8),
+            Ev::Remove { src } => format!("r{src}"),
+        }
+    }
+    pub(super) fn decode(s: &str) -> Option<Ev> {
+        let (head, rest) = s.split_at(1);
+        match head {
+            "d" => Some(Ev::Deliver),
+            "t" => Some(Ev::Tick),
+            "r" => Some(Ev::Remove { src: rest.parse().ok()? }),
+            "u" => {
+                let (a, b) = rest.split_once(':')?;
+                Some(Ev::Usable { src: a.parse().ok()?, on: b == "1" })
+            }
+            "m" => {
+                let p: Vec<&str> = rest.split(':').collect();
+                if p.len() != 12 {
+                    return None;
+                }
+                Some(Ev::Meas {
+                    src: p[0].parse().ok()?,
+                    off: p[1].parse().ok()?,
+                    delay: p[2].parse().ok()?,
+                    dt: p[3].parse().ok()?,
+                    mono_ns: p[4].parse().ok()?,
+                    rdelay: p[5].parse().ok()?,
+                    rdisp: p[6].parse().ok()?,
+                    leap: p[7].parse().ok()?,
+                    reps: p[8].parse().ok()?,
+                    defer: p[9] == "1",
+                    wob: p[10].parse().ok()?,
+                    dwob: p[11].parse().ok()?,
+                })
+            }
+            _ => None,
+        }
+    }
+}
+
+pub(super) fn units_to_ns(u: i64) -> u64 {
+    ((u.max(0) as u128 * 1_000_000_000u128) >> 32) as u64
+}
+
+pub(super) fn encode_trace(cfg: &Cfg, evs: &[&Ev]) -> String {
+    let e: Vec<String> = evs.iter().map(|e| e.encode()).collect();
+    format!("{}|{}", cfg.encode(), e.join(","))
+}
+
+pub(super) fn decode_trace(t: &str) -> Option<(Cfg, Vec<Ev>)> {
+    let (c, e) = t.trim().split_once('|')?;
+    let cfg = Cfg::decode(c)?;
+    let evs = if e.is_empty() {
+        vec![]
+    } else {
+        e.split(',').map(Ev::decode).collect::<Option<Vec<_>>>()?
+    };
+    Some((cfg, evs))
+}
+
+// ------------------------------------------------------------------------------------
+// world
+// ------------------------------------------------------------------------------------
+
+pub(super) enum Src {
+    Two(TwoWayKalmanSourceController),
+    One(OneWay),
+}
+
+struct Slot {
+    id: ClockId,
+    src: Option<Src>,
+}
+
+enum ChanMsg {
+    Source(KalmanSourceMessage),
+    Usable(bool),
+    Dropped,
+}
+
+#[derive(Clone, Debug, PartialEq)]
+pub(super) enum End {
+    Ok,
+    /// the `Threshold exceeded` panic: cfg(test) image of `std::process::exit(SOFTWARE)`
+    Exit,
+    /// any other panic of the code under test: (site, message)
+    Panic(String, String),
+}
+
+/// One invocation of the controller (one loop iteration of `run`).
+#[derive(Clone, Debug)]
+pub(super) struct Upd {
+    /// 0 source_message, 1 time_update, 2 source_update(usable), 3 remove_source
+    pub kind: u8,
+    pub src: u64,
+    pub calls: Vec<Call>,
+    pub used: Option<Vec<u64>>,
+    pub next_update: Option<Duration>,
+    pub snap: Option<TimeSnapshot>,
+    /// steering message broadcast to the sources: (0 step | 1 freq change, steer, time)
+    pub steer: Option<(u8, f64, u64)>,
+    pub end: End,
+    /// probe view after the update: (freq_offset, desired_freq, in_startup, accumulated units)
+    pub view: (f64, f64, bool, i64),
+    /// mock local clock after the update
+    pub local_now: u64,
+}
+
+#[derive(Clone, Debug)]
+pub(super) struct SrcView {
+    pub slot: usize,
+    /// 0..=7 samples in the initial phase, 8 = Kalman stage
+    pub phase: u8,
+    /// [offset, frequency, p00, p01, p10, p11, wander, delay] behind `observe()`
+    pub snap: Option<[f64; 8]>,
+    /// what `observe()` reports: offset, uncertainty, delay (units)
+    pub obs: [i64; 3],
+}
+
+#[derive(Clone, Debug)]
+pub(super) struct Transition {
+    pub enabled: bool,
+    pub upds: Vec<Upd>,
+    /// f64 view of every source message produced by a `handle_measurement` call
+    pub produced: Vec<(usize, Option<[f64; 8]>)>,
+    /// per live source after every measurement repetition / loop iteration
+    pub views: Vec<SrcView>,
+    pub end: End,
+}
+
+pub(super) struct World {
+    ctrl: KalmanClockController<RecClock>,
+    clock: RecClock,
+    slots: Vec<Slot>,
+    chan: VecDeque<(ClockId, ChanMsg)>,
+    timer: Option<tokio::time::Instant>,
+    pub dead: Option<End>,
+    pub events_executed: u64,
+}
+
+impl World {
+    pub(super) fn new(cfg: &Cfg) -> World {
+        let mut tries = 0u32;
+        loop {
+            tries += 1;
+            let clock = RecClock::new(cfg.init_freq);
+            let mut ctrl = KalmanClockController::new(clock.clone(), cfg.sync(), cfg.algo())
+                .expect("mock clock never fails");
+            ctrl.take_control().expect("mock clock never fails");
+            let mut slots = Vec::new();
+            for (i, k) in cfg.sources.iter().enumerate() {
+                let id = ClockId(i as u64 + 1);
+                let src = match k {
+                    SrcKind::Two => Src::Two(ctrl.add_source(id, SourceConfig::default())),
+                    SrcKind::One { noise, accuracy, period } => Src::One(ctrl.add_one_way_source(
+                        id,
+                        SourceConfig::default(),
+                        *noise,
+                        *accuracy,
+                        *period,
+                    )),
+                };
+                slots.push(Slot { id, src: Some(src) });
+            }
+            let mut want: Vec<u64> = (1..=cfg.sources.len() as u64).collect();
+            if cfg.order == 1 {
+                want.reverse();
+            }
+            if ctrl.ga_order() == want {
+                clock.take_log();
+                return World {
+                    ctrl,
+                    clock,
+                    slots,
+                    chan: VecDeque::new(),
+                    timer: None,
+                    dead: None,
+                    events_executed: 0,
+                };
+            }
+            assert!(tries < 100_000, "harness: could not obtain the demanded HashMap order");
+        }
+    }
+
+    pub(super) fn clock(&self) -> &RecClock {
+        &self.clock
+    }
+
+    pub(super) fn ctrl(&self) -> &KalmanClockController<RecClock> {
+        &self.ctrl
+    }
+
+    fn kill(&mut self, e: End) {
+        if self.dead.is_none() {
+            self.dead = Some(e);
+        }
+    }
+
+    fn feedback(&mut self, msg: &KalmanControllerMessage) {
+        // same order as TimeSyncControllerWrapper::run: one-way sources, then two-way sources
+        for pass in 0..2 {
+            for s in self.slots.iter_mut() {
+                let r = match (&mut s.src, pass) {
+                    (Some(Src::One(c)), 0) => common::catch(|| c.handle_message(msg.clone())),
+                    (Some(Src::Two(c)), 1) => common::catch(|| c.handle_message(msg.clone())),
+                    _ => Ok(()),
+                };
+                if let Err(m) = r {
+                    if self.dead.is_none() {
+                        self.dead = Some(End::Panic("source.handle_message".into(), m));
+                    }
+                }
+            }
+        }
+    }
+
+    fn handle_update(
+        &mut self,
+        kind: u8,
+        src: u64,
+        r: Result<InternalStateUpdate<KalmanControllerMessage>, String>,
+        tr: &mut Transition,
+    ) {
+        let calls = self.clock.take_log();
+        let local_now = self.clock.local_now();
+        match r {
+            Ok(u) => {
+                let mut end = End::Ok;
+                if let Some(d) = u.next_update {
+                    // run(): sleeper.reset(tokio::time::Instant::now() + next_update)
+                    match tokio::time::Instant::now().checked_add(d) {
+                        Some(t) => self.timer = Some(t),
+                        None => {
+                            end = End::Panic(
+                                "run: Instant::now() + next_update".into(),
+                                format!("overflow when adding duration {d:?} to instant"),
+                            )
+                        }
+                    }
+                }
+                tr.upds.push(Upd {
+                    kind,
+                    src,
+                    calls,
+                    used: u.used_sources.as_ref().map(|v| v.iter().map(|c| c.0).collect()),
+                    next_update: u.next_update,
+                    snap: u.time_snapshot,
+                    steer: u.source_message.as_ref().map(|m| m.ga_fields()),
+                    end: end.clone(),
+                    view: self.ctrl.ga_view(),
+                    local_now,
+                });
+                if end != End::Ok {
+                    self.kill(end);
+                    return;
+                }
+                if let Some(m) = u.source_message {
+                    self.feedback(&m);
+                }
+            }
+            Err(m) => {
+                let end = if m.contains("Threshold exceeded") {
+                    End::Exit
+                } else {
+                    End::Panic(if kind == 1 { "time_update".into() } else { "source_message".into() }, m)
+                };
+                tr.upds.push(Upd {
+                    kind,
+                    src,
+                    calls,
+                    used: None,
+                    next_update: None,
+                    snap: None,
+                    steer: None,
+                    end: end.clone(),
+                    view: (f64::NAN, f64::NAN, false, 0),
+                    local_now,
+                });
+                self.kill(end);
+            }
+        }
+    }
+
+    /// one iteration of the `run` loop on the message branch
+    fn deliver_one(&mut self, tr: &mut Transition) -> bool {
+        let Some((id, msg)) = self.chan.pop_front() else { return false };
+        match msg {
+            ChanMsg::Source(m) => {
+                let ctrl = &mut self.ctrl;
+                let r = common::catch(|| ctrl.source_message(id, m));
+                self.handle_update(0, id.0, r, tr);
+            }
+            ChanMsg::Usable(on) => {
+                let ctrl = &mut self.ctrl;
+                let r = common::catch(|| ctrl.source_update(id, on)).map(|()| InternalStateUpdate::default());
+                self.handle_update(2, id.0, r, tr);
+            }
+            ChanMsg::Dropped => {
+                let ctrl = &mut self.ctrl;
+                let r = common::catch(|| ctrl.remove_source(id)).map(|()| InternalStateUpdate::default());
+                self.handle_update(3, id.0, r, tr);
+            }
+        }
+        true
+    }
+
+    fn drain(&mut self, tr: &mut Transition) {
+        while self.dead.is_none() && self.deliver_one(tr) {}
+    }
+
+    fn view_sources(&mut self, tr: &mut Transition) {
+        for (i, s) in self.slots.iter().enumerate() {
+            let r = match &s.src {
+                None => continue,
+                Some(Src::Two(c)) => common::catch(|| (c.ga_phase(), c.ga_snapshot_f64s(), c.observe())),
+                Some(Src::One(c)) => common::catch(|| (c.ga_phase(), c.ga_snapshot_f64s(), c.observe())),
+            };
+            match r {
+                Ok((phase, snap, o)) => tr.views.push(SrcView {
+                    slot: i,
+                    phase,
+                    snap,
+                    obs: [du(o.offset), du(o.uncertainty), du(o.delay)],
+                }),
+                Err(m) => {
+                    if self.dead.is_none() {
+                        self.dead = Some(End::Panic("source.observe".into(), m));
+                    }
+                }
+            }
+        }
+    }
+
+    pub(super) async fn step(&mut self, ev: &Ev) -> Transition {
+        let mut tr = Transition {
+            enabled: true,
+            upds: Vec::new(),
+            produced: Vec::new(),
+            views: Vec::new(),
+            end: End::Ok,
+        };
+        if self.dead.is_some() {
+            tr.enabled = false;
+            tr.end = self.dead.clone().unwrap();
+            return tr;
+        }
+        match ev {
+            Ev::Meas { src, off, delay, dt, mono_ns, rdelay, rdisp, leap, reps, defer, wob, dwob } => {
+                let si = *src as usize;
+                if si >= self.slots.len() || self.slots[si].src.is_none() {
+                    tr.enabled = false;
+                    return tr;
+                }
+                for k in 0..*reps {
+                    tokio::time::advance(Duration::from_nanos(*mono_ns)).await;
+                    self.clock.advance_local(*dt);
+                    self.events_executed += 1;
+                    let off_k = off.saturating_add(wob.saturating_mul((k % 3) as i64 - 1));
+                    let delay_k = delay.saturating_add(dwob.saturating_mul((k % 2) as i64));
+                    let localtime = NtpTimestamp::from_fixed_int(self.clock.local_now());
+                    let id = self.slots[si].id;
+                    let r = match self.slots[si].src.as_mut().unwrap() {
+                        Src::Two(c) => common::catch(|| {
+                            c.handle_measurement(InternalMeasurement {
+                                delay: NtpDuration::from_fixed_int(delay_k),
+                                offset: NtpDuration::from_fixed_int(off_k),
+                                localtime,
+                                root_delay: NtpDuration::from_fixed_int(*rdelay),
+                                root_dispersion: NtpDuration::from_fixed_int(*rdisp),
+                                leap: leap_of(*leap),
+                                precision: 0,
+                            })
+                        }),
+                        Src::One(c) => common::catch(|| {
+                            c.handle_measurement(InternalMeasurement {
+                                delay: (),
+                                offset: NtpDuration::from_fixed_int(off_k),
+                                localtime,
+                                root_delay: NtpDuration::from_fixed_int(*rdelay),
+                                root_dispersion: NtpDuration::from_fixed_int(*rdisp),
+                                leap: leap_of(*leap),
+                                precision: 0,
+                            })
+                        }),
+                    };
+                    match r {
+                        Ok(Some(m)) => {
+                            tr.produced.push((si, Some(m.ga_f64s())));
+                            self.chan.push_back((id, ChanMsg::Source(m)));
+                        }
+                        Ok(None) => tr.produced.push((si, None)),
+                        Err(m) => self.kill(End::Panic("source.handle_measurement".into(), m)),
+                    }
+                    if !*defer {
+                        self.drain(&mut tr);
+                    }
+                    self.view_sources(&mut tr);
+                    if self.dead.is_some() {
+                        break;
+                    }
+                }
+            }
+            Ev::Deliver => {
+                if self.chan.is_empty() {
+                    tr.enabled = false;
+                    return tr;
+                }
+                self.events_executed += 1;
+                self.deliver_one(&mut tr);
+                self.view_sources(&mut tr);
+            }
+            Ev::Tick => {
+                let Some(deadline) = self.timer else {
+                    tr.enabled = false;
+                    return tr;
+                };
+                let now = tokio::time::Instant::now();
+                if deadline > now {
+                    let d = deadline - now;
+                    tokio::time::advance(d).await;
+                    self.clock.advance_local(du(NtpDuration::from_system_duration(d)));
+                }
+                self.timer = None;
+                self.events_executed += 1;
+                let ctrl = &mut self.ctrl;
+                let r = common::catch(|| ctrl.time_update());
+                self.handle_update(1, 0, r, &mut tr);
+                self.view_sources(&mut tr);
+            }
+            Ev::Usable { src, on } => {
+                let si = *src as usize;
+                if si >= self.slots.len() || self.slots[si].src.is_none() {
+                    tr.enabled = false;
+                    return tr;
+                }
+                self.events_executed += 1;
+                self.chan.push_back((self.slots[si].id, ChanMsg::Usable(*on)));
+                self.drain(&mut tr);
+            }
+            Ev::Remove { src } => {
+                let si = *src as usize;
+                if si >= self.slots.len() || self.slots[si].src.is_none() {
+                    tr.enabled = false;
+                    return tr;
+                }
+                self.events_executed += 1;
+                // the wrapper is dropped: its controller stops receiving steering messages
+                // at once, the Dropped notification travels through the channel
+                self.slots[si].src = None;
+                self.chan.push_back((self.slots[si].id, ChanMsg::Dropped));
+                self.drain(&mut tr);
+            }
+        }
+        tr.end = self.dead.clone().unwrap_or(End::Ok);
+        tr
+    }
+
+    /// Canonical key: exact bit patterns of everything that can influence the future.
+    pub(super) fn key(&self, model_hash: u64) -> u128 {
+        let mut w: Vec<u64> = Vec::with_capacity(160);
+        w.push(model_hash);
+        match &self.dead {
+            None => w.push(0),
+            Some(End::Ok) => w.push(1),
+            Some(End::Exit) => w.push(2),
+            Some(End::Panic(..)) => w.push(3),
+        }
+        self.ctrl.ga_state_words(&mut w);
+        let now = tokio::time::Instant::now();
+        for s in &self.slots {
+            match &s.src {
+                None => w.push(u64::MAX - 1),
+                Some(Src::Two(c)) => c.ga_state_words(now, &mut w),
+                Some(Src::One(c)) => c.ga_state_words(now, &mut w),
+            }
+        }
+        w.push(self.chan.len() as u64);
+        for (id, m) in &self.chan {
+            w.push(id.0);
+            match m {
+                ChanMsg::Source(m) => {
+                    w.push(0);
+                    m.ga_words(&mut w);
+                }
+                ChanMsg::Usable(b) => w.push(1 + *b as u64),
+                ChanMsg::Dropped => w.push(3),
+            }
+        }
+        match self.timer {
+            None => w.push(u64::MAX),
+            Some(t) => {
+                let d = t.checked_duration_since(now).unwrap_or(Duration::ZERO);
+                w.push(d.as_secs());
+                w.push(d.subsec_nanos() as u64);
+            }
+        }
+        w.push(self.clock.local_now());
+        w.push(self.clock.freq().to_bits());
+        hash128(&w)
+    }
+}
+
+pub(super) fn hash128(w: &[u64]) -> u128 {
+    let mut a: u64 = 0x243f6a8885a308d3;
+    let mut b: u64 = 0x13198a2e03707344;
+    for &x in w {
+        a = (a ^ x).wrapping_mul(0x9e3779b97f4a7c15);
+        a ^= a >> 29;
+        b = (b.rotate_left(23) ^ x).wrapping_mul(0xc2b2ae3d27d4eb4f);
+        b ^= b >> 31;
+    }
+    a = (a ^ (a >> 32)).wrapping_mul(0xd6e8feb86659fd93);
+    b = (b ^ (b >> 33)).wrapping_mul(0xff51afd7ed558ccd);
+    ((a as u128) << 64) | (b ^ (b >> 29)) as u128
+}
+
+// ------------------------------------------------------------------------------------
+// explorer
+// ------------------------------------------------------------------------------------
+
+#[derive(Default)]
+pub(super) struct Report {
+    pub tally: BTreeMap<&'static str, u64>,
+    /// (class, what)
+    pub viols: Vec<(String, String)>,
+    /// short human readable outcome of the judged transition (for samples)
+    pub note: Option<String>,
+}
+
+impl Report {
+    pub(super) fn inc(&mut self, k: &'static str) {
+        *self.tally.entry(k).or_insert(0) += 1;
+    }
+    pub(super) fn add(&mut self, k: &'static str, n: u64) {
+        *self.tally.entry(k).or_insert(0) += n;
+    }
+    pub(super) fn viol(&mut self, class: impl Into<String>, what: impl Into<String>) {
+        self.viols.push((class.into(), what.into()));
+    }
+}
+
+pub(super) struct Spec {
+    /// violations of lower rank are reported first (0 = shipped algorithm configuration)
+    pub rank: u8,
+    pub name: String,
+    pub cfg: Cfg,
+    pub prefix: Vec<Ev>,
+    pub alphabet: Vec<Ev>,
+    pub depth: usize,
+}
+
+struct CandOut {
+    key: u128,
+    enabled: bool,
+    terminal: bool,
+    nontrivial: bool,
+    events: u64,
+}
+
+async fn run_history<M, J>(
+    spec: &Spec,
+    hist: &[u16],
+    judge: &J,
+    mut report: Option<&mut Report>,
+) -> CandOut
+where
+    M: Default + Hash,
+    J: Fn(&Cfg, &mut M, &Transition, Option<&mut Report>),
+{
+    let mut w = World::new(&spec.cfg);
+    let mut m = M::default();
+    let mut out = CandOut { key: 0, enabled: true, terminal: false, nontrivial: false, events: 0 };
+    let judge_prefix = hist.is_empty();
+    for ev in &spec.prefix {
+        let tr = w.step(ev).await;
+        if judge_prefix {
+            judge(&spec.cfg, &mut m, &tr, report.as_deref_mut());
+            out.nontrivial |= !tr.upds.is_empty();
+        } else {
+            judge(&spec.cfg, &mut m, &tr, None);
+        }
+    }
+    for (i, &s) in hist.iter().enumerate() {
+        let tr = w.step(&spec.alphabet[s as usize]).await;
+        if i + 1 == hist.len() {
+            out.enabled = tr.enabled;
+            out.nontrivial = !tr.upds.is_empty();
+            if tr.enabled {
+                judge(&spec.cfg, &mut m, &tr, report.as_deref_mut());
+            }
+        } else {
+            judge(&spec.cfg, &mut m, &tr, None);
+        }
+    }
+    out.terminal = w.dead.is_some();
+    out.events = w.events_executed;
+    out.key = w.key(common::hash_of(&m));
+    out
+}
+
+pub(super) fn trace_of(spec: &Spec, hist: &[u16]) -> String {
+    let evs: Vec<&Ev> = spec
+        .prefix
+        .iter()
+        .chain(hist.iter().map(|&s| &spec.alphabet[s as usize]))
+        .collect();
+    encode_trace(&spec.cfg, &evs)
+}
+
+/// What one exploration (one configuration, one start state, one alphabet) produced.
+/// Merged into the `Ctx` by `run_specs` in specification order, so reports are
+/// deterministic although specifications are explored in parallel.
+#[derive(Default)]
+pub(super) struct SpecOut {
+    pub tally: BTreeMap<&'static str, u64>,
+    /// (class, what, trace, number of events) — at most 2 per class, shortest first
+    pub viols: Vec<(String, String, String, usize)>,
+    pub viol_totals: BTreeMap<String, u64>,
+    pub samples: Vec<String>,
+    pub distinct: Vec<u64>,
+    pub max_depth: u64,
+    pub cap: Option<String>,
+}
+
+impl SpecOut {
+    fn absorb(&mut self, spec: &Spec, hist: &[u16], rep: Report) {
+        for (k, v) in &rep.tally {
+            *self.tally.entry(k).or_insert(0) += *v;
+        }
+        for (class, what) in rep.viols {
+            let n = self.viol_totals.entry(class.clone()).or_insert(0);
+            *n += 1;
+            if *n <= 2 {
+                self.viols.push((class, what, trace_of(spec, hist), spec.prefix.len() + hist.len()));
+            }
+        }
+        if let Some(n) = rep.note {
+            if self.samples.len() < 2 {
+                self.samples.push(format!("[{}] {} -> {}", spec.name, trace_of(spec, hist), n));
+            }
+        }
+    }
+    fn add(&mut self, k: &'static str, n: u64) {
+        *self.tally.entry(k).or_insert(0) += n;
+    }
+}
+
+/// Breadth-first exploration of `spec` with key deduplication (sequential, inside one
+/// paused runtime). `out.cap` is set if the wall budget stopped it before `spec.depth`.
+pub(super) fn explore<M, J>(ctx: &Ctx, spec: &Spec, judge: &J) -> SpecOut
+where
+    M: Default + Hash,
+    J: Fn(&Cfg, &mut M, &Transition, Option<&mut Report>),
+{
+    let id = ctx.id;
+    super::block_on_paused(async {
+        let mut out = SpecOut::default();
+        // level 0: the start state (prefix only); the prefix is itself a judged history
+        let mut rep0 = Report::default();
+        let root = run_history::<M, J>(spec, &[], judge, Some(&mut rep0)).await;
+        out.absorb(spec, &[], rep0);
+        out.add("impl_events_executed", root.events);
+        out.add("transitions", spec.prefix.len() as u64);
+        let mut seen: HashSet<u128> = HashSet::new();
+        seen.insert(root.key);
+        out.add("states", 1);
+        if root.terminal {
+            out.add("start_states_terminal", 1);
+            return out;
+        }
+        let mut frontier: Vec<Vec<u16>> = vec![vec![]];
+        let k = spec.alphabet.len();
+        let mut cand: u64 = 0;
+        for depth in 1..=spec.depth {
+            if frontier.is_empty() {
+                break;
+            }
+            if ctx.over_budget() {
+                out.cap = Some(format!(
+                    "{id} [{} | {}]: depth {depth} not started (wall budget); depth<={} complete",
+                    spec.name,
+                    spec.cfg.encode(),
+                    depth - 1
+                ));
+                return out;
+            }
+            let mut next: Vec<Vec<u16>> = Vec::new();
+            for parent in &frontier {
+                for s in 0..k {
+                    let mut hist = parent.clone();
+                    hist.push(s as u16);
+                    let mut rep = Report::default();
+                    let o = run_history::<M, J>(spec, &hist, judge, Some(&mut rep)).await;
+                    cand += 1;
+                    if cand % 97 == 0 {
+                        // determinism guard: the same history must reproduce the same key
+                        let o2 = run_history::<M, J>(spec, &hist, judge, None).await;
+                        if o2.key != o.key {
+                            rep.viol(
+                                format!("{id}:harness-nondeterministic"),
+                                "two replays of one history ended in different states",
+                            );
+                        }
+                        out.add("determinism_rechecks", 1);
+                    }
+                    out.add("impl_events_executed", o.events);
+                    if !o.enabled {
+                        out.add("events_disabled", 1);
+                        continue;
+                    }
+                    out.absorb(spec, &hist, rep);
+                    out.add("transitions", 1);
+                    out.add("histories", 1);
+                    if seen.insert(o.key) {
+                        out.add("states", 1);
+                        if o.nontrivial {
+                            out.distinct.push(o.key as u64);
+                        }
+                        if o.terminal {
+                            out.add("states_terminal", 1);
+                        } else {
+                            next.push(hist);
+                        }
+                    } else {
+                        out.add("states_merged", 1);
+                    }
+                }
+            }
+            out.max_depth = depth as u64;
+            frontier = next;
+        }
+        out
+    })
+}
+
+/// Explore all specifications (in parallel, one thread per specification at a time) and
+/// merge the results in specification order. Returns true if every one ran to its depth.
+pub(super) fn run_specs<M, J>(ctx: &Ctx, specs: &[Spec], judge: &J) -> bool
+where
+    M: Default + Hash,
+    J: Fn(&Cfg, &mut M, &Transition, Option<&mut Report>) + Sync,
+{
+    let outs: Mutex<Vec<(u64, SpecOut)>> = Mutex::new(Vec::new());
+    common::par_for(specs.len() as u64, 1, |i| {
+        let o = explore::<M, J>(ctx, &specs[i as usize], judge);
+        outs.lock().unwrap().push((i, o));
+    });
+    let mut outs = outs.into_inner().unwrap();
+    outs.sort_by_key(|e| e.0);
+    let mut complete = true;
+    let mut viols: Vec<(String, String, String, (u8, usize), u64)> = Vec::new();
+    for (i, o) in outs {
+        for (k, v) in &o.tally {
+            ctx.add(k, *v);
+        }
+        ctx.add("evaluations", *o.tally.get("transitions").unwrap_or(&0));
+        ctx.max("max_depth", o.max_depth);
+        // keys are per configuration (the configuration is constant inside a specification)
+        let ch = common::hash_of(&specs[i as usize].cfg.encode());
+        ctx.distinct_many(o.distinct.into_iter().map(|k| k ^ ch));
+        for s in o.samples {
+            ctx.sample(s);
+        }
+        for (class, n) in &o.viol_totals {
+            ctx.add(&format!("violating_histories[{class}]"), *n);
+        }
+        for (c, w, t, n) in o.viols {
+            viols.push((c, w, t, (specs[i as usize].rank, n), i));
+        }
+        match o.cap {
+            Some(c) => {
+                complete = false;
+                ctx.cap_hit(&c);
+            }
+            None => ctx.inc("explorations_completed"),
+        }
+    }
+    // lowest rank, then shortest trace of every class first (Ctx keeps the first three per class)
+    viols.sort_by(|a, b| (&a.0, a.3, a.4).cmp(&(&b.0, b.3, b.4)));
+    for (c, w, t, _, _) in viols {
+        ctx.violation(&c, w, t);
+    }
+    complete
+}
+
+
+/// Re-execute one trace without the explorer; every transition is judged and reported.
+pub(super) fn replay_with<M, J>(ctx: &Ctx, trace: &str, judge: &J) -> String
+where
+    M: Default + Hash,
+    J: Fn(&Cfg, &mut M, &Transition, Option<&mut Report>),
+{
+    let Some((cfg, evs)) = decode_trace(trace) else {
+        return format!("unparsable trace: {trace}");
+    };
+    super::block_on_paused(async {
+        let mut w = World::new(&cfg);
+        let mut m = M::default();
+        let mut obs = String::new();
+        for ev in &evs {
+            let tr = w.step(ev).await;
+            let mut rep = Report::default();
+            judge(&cfg, &mut m, &tr, Some(&mut rep));
+            for (class, what) in &rep.viols {
+                ctx.violation(class, what.clone(), trace.to_string());
+            }
+            obs.push_str(&format!("{} => ", ev.encode()));
+            if !tr.enabled {
+                obs.push_str("disabled; ");
+                continue;
+            }
+            for u in &tr.upds {
+                obs.push_str(&format!(
+                    "[k{} src{} calls={:?} used={:?} next={:?} steer={:?} end={:?}] ",
+                    u.kind, u.src, u.calls, u.used, u.next_update, u.steer, u.end
+                ));
+            }
+            for u in &tr.upds {
+                if let Some(t) = &u.snap {
+                    obs.push_str(&format!(
+                        "{{rootvar {:e} {:e} {:e} {:e} acc={} view={:?}}} ",
+                        t.root_variance_base,
+                        t.root_variance_linear,
+                        t.root_variance_quadratic,
+                        t.root_variance_cubic,
+                        du(t.accumulated_steps),
+                        u.view
+                    ));
+                }
+            }
+            for v in &tr.views {
+                obs.push_str(&format!("<s{} ph{} {:?} obs={:?}> ", v.slot, v.phase, v.snap, v.obs));
+            }
+            obs.push_str(&format!("viol={:?}; ", rep.viols.iter().map(|v| v.0.clone()).collect::<Vec<_>>()));
+        }
+        obs.push_str(&format!("final_key={:032x}", w.key(common::hash_of(&m))));
+        obs
+    })
+}
+
+// ------------------------------------------------------------------------------------
+// C01 oracle
+// ------------------------------------------------------------------------------------
+
+#[derive(Default, Hash, Clone, Debug)]
+pub(super) struct M01 {
+    synced: bool,
+    acc: i128,
+}
+
+fn outside(win: (Option<i64>, Option<i64>), d: i64) -> bool {
+    let d = d as i128;
+    win.0.is_some_and(|f| d > f as i128) || win.1.is_some_and(|b| d < -(b as i128))
+}
+
+pub(super) fn judge01(cfg: &Cfg, m: &mut M01, tr: &Transition, mut rep: Option<&mut Report>) {
+    for u in &tr.upds {
+        let steps: Vec<i64> = u
+            .calls
+            .iter()
+            .filter_map(|c| if let Call::Step(d) = c { Some(*d) } else { None })
+            .collect();
+        match &u.end {
+            End::Exit => {
+                if let Some(r) = rep.as_deref_mut() {
+                    r.inc(if m.synced { "exits_after_sync" } else { "exits_during_startup" });
+                    r.note = Some(format!("daemon exits ({})", if m.synced { "synchronised" } else { "startup" }));
+                    if !steps.is_empty() {
+                        r.viol("C01:stepped-then-exited", format!("update stepped by {steps:?} units and then exited"));
+                    }
+                }
+            }
+            End::Panic(site, msg) => {
+                if let Some(r) = rep.as_deref_mut() {
+                    r.inc("other_panics");
+                    r.viol("C01:panic-not-threshold", format!("{site}: {msg}"));
+                }
+            }
+            End::Ok => {}
+        }
+        for d in steps {
+            let mag = (d as i128).abs();
+            if !m.synced {
+                if let Some(r) = rep.as_deref_mut() {
+                    r.inc("steps_during_startup");
+                    r.note = Some(format!("startup step {:.6} s", secs(d)));
+                    if outside(cfg.startup, d) {
+                        r.viol(
+                            "C01:step-outside-startup-threshold",
+                            format!("unsynchronised daemon stepped by {} units ({:.3} s), startup window {:?}", d, secs(d), cfg.startup),
+                        );
+                    }
+                }
+            } else {
+                m.acc += mag;
+                if let Some(r) = rep.as_deref_mut() {
+                    r.inc("steps_after_sync");
+                    r.note = Some(format!("post-sync step {:.6} s, accumulated {:.3} s", secs(d), m.acc as f64 / 4294967296.0));
+                    if outside(cfg.single, d) {
+                        r.viol(
+                            "C01:step-outside-single-threshold",
+                            format!("synchronised daemon stepped by {} units ({:.3} s), single-step window {:?}", d, secs(d), cfg.single),
+                        );
+                    }
+                    if let Some(a) = cfg.acc {
+                        if m.acc > a as i128 {
+                            // a step of i64::MIN units (or one that follows it, the reported sum
+                            // being negative from then on) is the wrapped-abs defect; anything
+                            // else is a plain failure of the accumulated check
+                            let class = if d == i64::MIN || m.acc > i64::MAX as i128 {
+                                "C01:i64min-step-evades-accumulated-threshold"
+                            } else {
+                                "C01:accumulated-threshold-exceeded"
+                            };
+                            r.viol(
+                                class,
+                                format!(
+                                    "step of {} units brings the sum of |post-startup steps| to {} units > accumulated threshold {} units; reported accumulated_steps = {} units",
+                                    d, m.acc, a, u.view.3
+                                ),
+                            );
+                        } else if m.acc * 10 > a as i128 * 9 {
+                            r.inc("steps_within_10pct_of_accumulated");
+                        }
+                    }
+                }
+            }
+        }
+        if u.end == End::Ok {
+            if let Some(r) = rep.as_deref_mut() {
+                match u.kind {
+                    0 => r.inc(if u.used.is_some() { "updates_with_consensus" } else { "updates_without_consensus" }),
+                    1 => r.inc("slew_ends"),
+                    _ => {}
+                }
+                if u.next_update.is_some() {
+                    r.inc("slews_started");
+                }
+            }
+            if u.used.is_some() {
+                m.synced = true;
+            }
+            if let Some(r) = rep.as_deref_mut() {
+                if u.kind == 0 && u.view.2 == m.synced {
+                    // diagnostic only: the implementation's flag disagrees with the model
+                    r.inc("startup_flag_differs_from_model");
+                }
+            }
+        }
+    }
+    if let Some(r) = rep.as_deref_mut() {
+        if tr.upds.is_empty() {
+            r.inc("events_without_controller_update");
+        }
+    }
+}
+
+// ------------------------------------------------------------------------------------
+// C01 alphabets, configurations, start states
+// ------------------------------------------------------------------------------------
+
+pub(super) const A: u8 = 0;
+pub(super) const B: u8 = 1;
+pub(super) const G: u8 = 2;
+
+/// all three sources announced usable (what `NtpSource`/`OneWaySource` do first)
+pub(super) fn prefix_usable() -> Vec<Ev> {
+    vec![
+        Ev::Usable { src: A, on: true },
+        Ev::Usable { src: B, on: true },
+        Ev::Usable { src: G, on: true },
+    ]
+}
+
+/// source `s` taken through its 8-sample initialisation with near-zero offsets
+pub(super) fn init_burst(s: u8) -> Ev {
+    Ev::burst(s, 0, MS, S, 8, MS / 10, MS / 50)
+}
+
+fn starts01(cfg: &Cfg) -> Vec<(String, Vec<Ev>)> {
+    let mut v = Vec::new();
+    v.push(("fresh".to_string(), prefix_usable()));
+    // A in its Kalman stage, daemon synchronised, nothing accumulated
+    let mut p = prefix_usable();
+    p.push(init_burst(A));
+    v.push(("A-stable".to_string(), p));
+    // synchronised on A, then A unusable and a first post-startup step taken on B:
+    // accumulated just below the accumulated threshold (if the configuration has one)
+    let mut p = prefix_usable();
+    p.push(Ev::meas(A, 0, MS, S));
+    p.push(Ev::Usable { src: A, on: false });
+    let target = match cfg.acc {
+        Some(a) => a - 50 * S,
+        None => 650 * S,
+    };
+    p.push(Ev::meas(B, target, MS, S));
+    v.push(("near-accumulated".to_string(), p));
+    // a slew in flight
+    let mut p = prefix_usable();
+    if cfg.step_threshold > 1.0 {
+        p.push(Ev::meas(A, 700 * S, MS, S));
+    } else {
+        p.push(init_burst(A));
+        p.push(Ev::meas(A, 5 * MS, MS, S));
+    }
+    v.push(("mid-slew".to_string(), p));
+    v
+}
+
+fn offsets_two_way() -> Vec<i64> {
+    vec![
+        0,
+        S / 5,
+        -S / 5,
+        700 * S,
+        -700 * S,
+        1500 * S,
+        -1500 * S,
+        90_000 * S,
+        -90_000 * S,
+        -(1i64 << 62),
+        1i64 << 62,
+    ]
+}
+
+fn alphabet01_full() -> Vec<Ev> {
+    let mut v = Vec::new();
+    for src in [A, B] {
+        for off in offsets_two_way() {
+            for dt in [S, 64 * S] {
+                v.push(Ev::meas(src, off, MS, dt));
+            }
+        }
+    }
+    let mut og = offsets_two_way();
+    og.push(i64::MIN);
+    og.push(i64::MIN + 1); // what a SOCK sample with offset >= +2^31 s turns into
+    og.push(i64::MAX);
+    for off in og {
+        for dt in [S, 64 * S] {
+            v.push(Ev::meas(G, off, 0, dt));
+        }
+    }
+    // bursts that carry a source through its initialisation
+    v.push(init_burst(A));
+    v.push(Ev::burst(B, 700 * S, MS, S, 8, MS / 10, MS / 50));
+    v.push(init_burst(G));
+    v.push(Ev::burst(G, i64::MIN, 0, S, 8, 0, 0));
+    v.push(Ev::burst(G, -1500 * S, 0, S, 8, MS / 10, 0));
+    // clock meddling: local time moved 1 s, monotonic time 100 s
+    v.push(Ev::meas(A, 0, MS, S).with_mono(100_000_000_000));
+    // queued (not yet processed) measurements and single loop iterations
+    v.push(Ev::meas(B, 700 * S, MS, S).deferred());
+    v.push(Ev::meas(A, -700 * S, MS, S).deferred());
+    v.push(Ev::Deliver);
+    v.push(Ev::Tick);
+    for s in [A, B, G] {
+        v.push(Ev::Usable { src: s, on: false });
+        v.push(Ev::Usable { src: s, on: true });
+        v.push(Ev::Remove { src: s });
+    }
+    v
+}
+
+fn alphabet01_core() -> Vec<Ev> {
+    vec![
+        Ev::meas(A, 0, MS, S),
+        Ev::meas(A, 700 * S, MS, S),
+        Ev::meas(A, -700 * S, MS, 64 * S),
+        Ev::meas(B, 700 * S, MS, S),
+        Ev::meas(B, -1500 * S, MS, S),
+        Ev::meas(G, 90_000 * S, 0, S),
+        Ev::burst(G, i64::MIN, 0, S, 8, 0, 0),
+        Ev::Usable { src: A, on: false },
+        Ev::Remove { src: B },
+        Ev::Tick,
+    ]
+}
+
+/// Source table in which the one-way source (index 2) is a *periodic* one (PPS-like, period 1 s,
+/// never part of the vote but merged into the estimate when it overlaps the voted interval).
+pub(super) fn periodic_sources() -> Vec<SrcKind> {
+    vec![
+        SrcKind::Two,
+        SrcKind::Two,
+        SrcKind::One { noise: 1e-6, accuracy: 0.0, period: Some(1.0) },
+    ]
+}
+
+/// Alphabet for the periodic table: the periodic source only ever reports sub-period offsets
+/// (pps_source.rs builds them from a sub-second timestamp), the two-way sources vote.
+fn alphabet01_periodic() -> Vec<Ev> {
+    vec![
+        Ev::meas(A, 0, MS, S),
+        Ev::meas(A, S / 5, MS, S),
+        Ev::meas(A, 700 * S, MS, 64 * S),
+        Ev::meas(A, -1500 * S, MS, S),
+        Ev::meas(B, 700 * S, MS, S),
+        init_burst(A),
+        Ev::meas(G, 0, 0, S),
+        Ev::meas(G, 3 * S / 10, 0, S),
+        Ev::meas(G, -S / 2, 0, S),
+        Ev::meas(G, 3 * S / 4, 0, 64 * S),
+        init_burst(G),
+        Ev::burst(G, 2 * S / 5, 0, S, 8, MS / 10, 0),
+        Ev::Tick,
+        Ev::Usable { src: A, on: false },
+    ]
+}
+
+fn configs01(quick: bool) -> Vec<Cfg> {
+    let inf = (None, None);
+    let sym = |s: i64| (Some(s * S), Some(s * S));
+    // (startup, single)
+    let windows: Vec<((Option<i64>, Option<i64>), (Option<i64>, Option<i64>))> = vec![
+        (inf, inf),
+        (inf, sym(1800)),
+        (sym(1000), sym(1000)),
+        ((Some(500 * S), Some(2000 * S)), (Some(2000 * S), Some(500 * S))),
+        (sym(0), sym(0)),
+        ((None, Some(1800 * S)), sym(1000)), // shipped defaults
+        (sym(1800), (Some(1000 * S), None)), // backward single steps unlimited
+    ];
+    let accs = [None, Some(100 * S), Some(1800 * S)];
+    let mut v = Vec::new();
+    for (wi, (su, si)) in windows.iter().enumerate() {
+        for (ai, acc) in accs.iter().enumerate() {
+            // spread the remaining axes (quorum, algorithm step threshold, HashMap order) over the grid
+            let variants: Vec<(usize, f64, u8)> = if quick {
+                vec![match (wi + ai) % 3 {
+                    0 => (1, 0.010, 0),
+                    1 => (2, 0.010, 1),
+                    _ => (1, 1800.0, 1),
+                }]
+            } else if (wi + ai) % 2 == 0 {
+                vec![(1, 0.010, 0), (2, 1800.0, 1)]
+            } else {
+                vec![(2, 0.010, 1), (1, 1800.0, 0)]
+            };
+            for (min_agree, st, order) in variants {
+                v.push(Cfg {
+                    startup: *su,
+                    single: *si,
+                    acc: *acc,
+                    min_agree,
+                    order,
+                    step_threshold: st,
+                    ..Cfg::default()
+                });
+            }
+        }
+    }
+    v
+}
+
+fn replay(ctx: &Ctx, trace: &str) -> String {
+    replay_with::<M01, _>(ctx, trace, &judge01)
+}
+
+#[test]
+fn check() {
+    let ctx = Ctx::new("C01");
+    if let Some(t) = common::replay_trace() {
+        let a = replay(&ctx, &t);
+        let b = replay(&ctx, &t);
+        common::report_replay("C01", &a, &b, ctx.violation_count() > 0);
+        return;
+    }
+    let quick = ctx.quick();
+    let full = alphabet01_full();
+    let core = alphabet01_core();
+    let (d_full, d_core) = if quick { (2, 4) } else { (3, 5) };
+    let d_per = if quick { 3 } else { 4 };
+    ctx.rule(&format!(
+        "BFS over event histories of the real KalmanClockController + real source controllers (sources A,B two-way, G one-way), \
+         per configuration (7 startup/single window pairs x accumulated in {{none,100 s,1800 s}} x {{min_agree, step_threshold, HashMap order}} variants) \
+         and per start state (fresh / A in Kalman stage / accumulated = threshold-50 s / slew in flight): \
+         all histories of <= {d_full} events (thorough: 3 for the first, 2 for the second variant of each window/accumulated pair) over the {}-symbol full alphabet (measurements of A,B,G with offsets 0,+-0.2,+-700,+-1500,+-90000,+-2^30 s, \
+         G also i64::MIN, i64::MIN+1, i64::MAX units, dt 1 s|64 s; 8-sample bursts; clock meddling; queued measurement + single delivery; slew-end timer; usable on/off; remove) \
+         and of <= {d_core} events over the {}-symbol core alphabet; plus, for three of the configurations with the one-way source made periodic (period 1 s), \
+         all histories of <= {d_per} events over a 14-symbol alphabet (sub-period offsets of the periodic source, voting two-way sources). States deduplicated on the exact bit pattern of all controller/source/channel/timer/clock state. \
+         Distinct & non-trivial = a distinct end state reached by a transition in which the controller was invoked.",
+        full.len(),
+        core.len()
+    ));
+    ctx.assume("the mock clock applies steps and frequency changes instantly and never fails; local time between events advances exactly by the event's dt");
+    ctx.assume("under cfg(test) the threshold check panics with 'Threshold exceeded' where the shipped binary calls std::process::exit(SOFTWARE); that panic is treated as the exit");
+    ctx.assume("HashMap iteration order of the controller's source table is forced (by re-creating the controller) to ascending or descending id, both are explored");
+    ctx.assume("a step of exactly the threshold value is accepted by the oracle either way (the statement does not fix the boundary)");
+    ctx.note("alphabet_full", &full.iter().map(|e| e.encode()).collect::<Vec<_>>().join(" "));
+    ctx.note("alphabet_core", &core.iter().map(|e| e.encode()).collect::<Vec<_>>().join(" "));
+    // how the extreme one-way offsets of the alphabet arise from real timestamp arithmetic
+    // (evaluated with the crate's own operators, recorded for the reader)
+    {
+        let t = NtpTimestamp::from_fixed_int(1u64 << 63);
+        let wrapper = du(NtpTimestamp::from_fixed_int(0) - t); // OneWaySourceControllerWrapper: sender_ts - receiver_ts
+        let sock_pos = du((t - NtpDuration::from_seconds(2_147_483_648.0)) - t); // sock_source.rs with sample.offset = +2^31 s
+        let sock_neg = du((t - NtpDuration::from_seconds(-2_147_483_649.0)) - t);
+        ctx.note(
+            "extreme_offset_reachability",
+            &format!(
+                "sender_ts - receiver_ts for timestamps 2^31 s apart = {wrapper} units; SOCK sample offset +2^31 s -> {sock_pos} units; SOCK sample offset -(2^31+1) s -> {sock_neg} units; \
+                 to_seconds() of both i64::MIN and i64::MIN+1 is below -2^31, so NtpDuration::from_seconds(change) of the resulting correction saturates to i64::MIN"
+            ),
+        );
+    }
+    let cfgs = configs01(quick);
+    ctx.set("configurations", cfgs.len() as u64);
+    let mut specs = Vec::new();
+    for (ci, cfg) in cfgs.iter().enumerate() {
+        // thorough: the second variant of every (window, accumulated) pair gets the full alphabet
+        // one level shallower (keeps the tier within ~15 min on a shared machine)
+        let d_full = if !quick && ci % 2 == 1 { d_full - 1 } else { d_full };
+        for (name, prefix) in starts01(cfg) {
+            for (alpha, depth, tag) in [(&full, d_full, "full"), (&core, d_core, "core")] {
+                specs.push(Spec {
+                    rank: 0,
+                    name: format!("{name}/{tag}"),
+                    cfg: cfg.clone(),
+                    prefix: prefix.clone(),
+                    alphabet: alpha.clone(),
+                    depth,
+                });
+            }
+        }
+    }
+    // periodic one-way source instead of G: three threshold configurations, two start states
+    let periodic = alphabet01_periodic();
+    let mut picked: Vec<&Cfg> = Vec::new();
+    for want in [
+        ((None, None), (None, None), Some(100 * S)),                                            // unlimited windows, accumulated 100 s
+        ((None, Some(1800 * S)), (Some(1000 * S), Some(1000 * S)), None),                       // shipped defaults
+        ((Some(500 * S), Some(2000 * S)), (Some(2000 * S), Some(500 * S)), Some(1800 * S)),     // asymmetric
+    ] {
+        if let Some(c) = cfgs.iter().find(|c| (c.startup, c.single, c.acc) == want) {
+            picked.push(c);
+        }
+    }
+    for cfg in picked {
+        let cfg = Cfg { sources: periodic_sources(), ..cfg.clone() };
+        for (name, prefix) in starts01(&cfg).into_iter().take(2) {
+            specs.push(Spec {
+                rank: 0,
+                name: format!("{name}/periodic"),
+                cfg: cfg.clone(),
+                prefix,
+                alphabet: periodic.clone(),
+                depth: d_per,
+            });
+        }
+    }
+    ctx.note("alphabet_periodic", &periodic.iter().map(|e| e.encode()).collect::<Vec<_>>().join(" "));
+    ctx.set("explorations", specs.len() as u64);
+    let complete = run_specs::<M01, _>(&ctx, &specs, &judge01);
+    ctx.exhaustive(complete);
+    ctx.finish();
+}
